@@ -239,6 +239,40 @@ pub fn block_detail(prop: &str, seed: u64, tier: Tier, scale: f64, corpus: &Corp
     out
 }
 
+/// A source of the same length with one `%keyword` replaced by another of equal length (so that
+/// everything else sits at the same offsets).
+fn related_variant(s: &str, r: &mut Rng) -> String {
+    const SWAPS: &[(&str, &str)] = &[
+        ("%then", "%scan"), ("%scan", "%then"), ("%put", "%cnt"), ("%let", "%put"), ("%eval", "%else"), ("%do", "%to"),
+        ("%if", "%by"), ("%str", "%end"), ("%end", "%str"), ("%local", "%trim("), ("%mend", "%left"), ("%m", "%n"), ("%a(", "%b("),
+        ("%sysfunc", "%sysexec"), ("%upcase", "%unquot("), ("%macro", "%mymac"),
+    ];
+    let lower = s.to_ascii_lowercase();
+    let mut cands: Vec<(usize, &str, &str)> = Vec::new();
+    for (a, b) in SWAPS {
+        if a.len() != b.len() {
+            continue;
+        }
+        let mut from = 0;
+        while let Some(p) = lower[from..].find(a) {
+            cands.push((from + p, a, b));
+            from += p + a.len();
+        }
+    }
+    if cands.is_empty() {
+        // change one ASCII letter instead
+        let mut out = s.to_string();
+        if let Some((i, c)) = s.char_indices().filter(|(_, c)| c.is_ascii_lowercase()).nth(r.below(8)) {
+            out.replace_range(i..i + 1, if c == 'z' { "a" } else { "z" });
+        }
+        return out;
+    }
+    let (p, a, b) = cands[r.below(cands.len())];
+    let mut out = s.to_string();
+    out.replace_range(p..p + a.len(), b);
+    out
+}
+
 // ---------------------------------------------------------------------------------------------
 // C19 in-process: history and schedule independence
 
@@ -247,6 +281,7 @@ pub fn c19_history(ctx: &Ctx, st: &mut Stats) {
     let mut r = ctx.rng(5);
     let n = ctx.draws(30_000, 600_000);
     let mut recent: Vec<String> = Vec::new();
+    let mut reuse = String::with_capacity(4096);
     for i in 0..n {
         let k = r.below(total_inputs("C19", ctx.tier, ctx.scale));
         let s = diff_input("C19", ctx.seed, k, ctx.tier, ctx.corpus);
@@ -280,6 +315,26 @@ pub fn c19_history(ctx: &Ctx, st: &mut Stats) {
             match fresh {
                 Ok(f) if f == base => {}
                 _ => st.violation(&Finding::new("C19.thread", "", "result differs on a fresh thread".into()), &[&s]),
+            }
+        }
+        // one String buffer reused for consecutive, related sources (same address, same offsets):
+        // the usual way a caller reads many files; the result must not depend on the previous
+        // content of the buffer
+        if i % 4 == 0 && s.len() < 2000 {
+            let variant = related_variant(&s, &mut r);
+            let expect_variant = outcome_bytes("C19", &variant, None);
+            reuse.clear();
+            reuse.push_str(&s);
+            let _ = outcome_bytes("C19", &reuse, None);
+            reuse.clear();
+            reuse.push_str(&variant);
+            let got = outcome_bytes("C19", &reuse, None);
+            st.count("buffer_reuse_comparisons", 1);
+            if got != expect_variant {
+                st.violation(
+                    &Finding::new("C19.buffer-reuse", "", "the result depends on what the same buffer held during the previous call".into()),
+                    &[&s, &variant],
+                );
             }
         }
         if recent.len() < 64 {
